@@ -105,6 +105,27 @@ class Model:
                 ev.append(Ev("write", str(bufsym[0]), norm(lo), norm(ln), c.loops, c.guards, c.line, c.node["id"], cal, value=val)); ev[-1].seq = c.seq + 0.5
                 if cal == "std::copy_n":
                     ev.append(Ev("read-src", str(c.args[0]), None, norm(ln), c.loops, c.guards, c.line, c.node["id"], "copy source", value=c.args[0])); ev[-1].seq = c.seq + 0.25
+            elif cal in ("memset", "std::memset"):
+                # memset(p, 0, BYTES) clears BYTES/sizeof(element) elements: a byte count written without the element size clears a part only
+                dst, val, nbytes = c.args[0], c.args[1], c.args[2]
+                A.require(dst is not None and nbytes is not None, "%s: memset with untranslatable arguments at line %d" % (fn["name"], c.line))
+                bufsym = [x for x in dst.free_symbols if str(x).startswith("_") and sp.expand(dst).coeff(x, 1) == 1]
+                A.require(len(bufsym) == 1, "%s: destination buffer of memset at line %d not identified (%s)" % (fn["name"], c.line, dst))
+                A.require(val == 0, "%s: memset with a non-zero byte at line %d is not modelled" % (fn["name"], c.line))
+                szs = list(nbytes.atoms(sp.Function))
+                szs = [z for z in szs if str(z.func) == "sizeof"]
+                esize = {"_bp_padded": 4, "_wakepotential_padded": 4, "_formfactor": 8, "_wakelosses": 8}.get(str(bufsym[0]))
+                A.require(esize is not None, "%s: memset on a buffer of unknown element size (%s)" % (fn["name"], bufsym[0]))
+                if len(szs) == 1 and sp.expand(nbytes).coeff(szs[0], 1) != 0 and not sp.expand(nbytes).coeff(szs[0], 0) != 0:
+                    tname = str(szs[0].args[0])
+                    own = str(bufsym[0]) in tname or tname in (("float", "vfps::integral_t", "integral_t", "vfps::meshaxis_t", "meshaxis_t") if esize == 4 else ("vfps::impedance_t", "impedance_t", "std::complex<float>"))
+                    A.require(own, "%s: memset sized with sizeof(%s), which is not recognisably the element type of %s" % (fn["name"], tname, bufsym[0]))
+                    ln = sp.expand(nbytes / szs[0])
+                else:
+                    A.require(not szs, "%s: memset byte count at line %d not understood (%s)" % (fn["name"], c.line, nbytes))
+                    ln = sp.floor(nbytes / esize)
+                lo = sp.expand(dst - bufsym[0])
+                ev.append(Ev("write", str(bufsym[0]), norm(lo), norm(ln), c.loops, c.guards, c.line, c.node["id"], "std::fill_n", value=sp.Integer(0))); ev[-1].seq = c.seq + 0.5
             elif cal == "fft::fft_execute":
                 plan = A.this_field(c.arg_nodes[0])
                 A.require(plan is not None, "%s: fft_execute on a non-member plan" % fn["name"])
